@@ -801,6 +801,15 @@ impl TypedExpr {
             }
             ExprEnum::UnaryOp(UnaryOp::Neg, x) => {
                 let x = x.compile(prg, env, circuit);
+                // the minimum value cannot be negated (its sign bit is the only bit set):
+                if let Some((&sign, rest)) = x.split_first() {
+                    let mut is_min = sign;
+                    for &w in rest {
+                        let not_w = circuit.push_not(w);
+                        is_min = circuit.push_and(is_min, not_w);
+                    }
+                    circuit.push_panic_if(is_min, PanicReason::Overflow, meta);
+                }
                 circuit.push_negation_circuit(&x)
             }
             ExprEnum::UnaryOp(UnaryOp::Not, x) => {
